@@ -6,4 +6,7 @@ var Registry = map[string]func(args []string){
 	"admission": Admission,
 	"hub": Hub,
 	"geometry": Geometry,
+	"xfer-one": XferOne,
+	"xfer-grid": XferGrid,
+	"xfer-faults": XferFaults,
 }
